@@ -419,3 +419,49 @@ _run_l07 = run
 def run(ctx, rep, tier):
     _run_l07(ctx, rep, tier)
     _subset_construction_obligations(ctx, rep, tier)
+
+
+# ---------------------------------------------------------------------------------------------------------------- C07.m
+def _minimisation_obligations(ctx, rep, tier):
+    """C07.m: minimisation is partition refinement; merging two states is only sound if they agree on finishing and, for every symbol, move into the same block
+    (or both have no move). Each obligation is a necessary condition of language equality."""
+    model = ctx.model
+    q = "RegexNFA.minimize_dfa"
+    fn = model.func(q)
+    rep.rule("C07.m", "minimisation: the initial partition separates finishing from non-finishing states; a block is split on the first symbol of the alphabet on which two of "
+                      "its states move into different blocks (no move = its own answer); refinement runs to a fixed point; the rebuilt automaton takes finishing, the "
+                      "transitions and the start from the blocks of the original's")
+    obl = [
+        ("initial partition by finishing / non-finishing", q + ".initial_partition",
+         "for state in self.states:\n    if state in self.finishing_states:\n        T[True].add(state)\n    else:\n        T[False].add(state)\nreturn set((frozenset(x) for x in T.values()))",
+         "finishing and non-finishing states start in one block: the minimised matcher accepts where the expression does not finish"),
+        ("two states stay together on a symbol iff they move into the same block (absent move = None block)", q + ".split.splits",
+         "expected = state.transitions.get(c, None)\nexpected = partition_containing(expected)\nfor other in S:\n    actual = other.transitions.get(c, None)\n    actual = partition_containing(actual)\n"
+         "    if actual == expected:\n        s1.add(other)\n    else:\n        s2.add(other)",
+         "the agreement test of the refinement changed: states that move into different blocks (or one of which has no move) are kept together"),
+        ("a block is split as soon as both sides are non-empty", q + ".split.splits", "if s1 and s2:\n    return {frozenset(s1), frozenset(s2)}",
+         "a found split is not returned"),
+        ("every symbol of the alphabet is tried; the block is kept only if none splits it", q + ".split",
+         "for char in alphabet:\n    split = splits(char)\n    if split:\n        return split\nreturn {S}", "not every symbol is tried before a block is declared stable"),
+        ("refinement to a fixed point", q, "while P != T:\n    P = T\n    T = set()\n    for p in P:\n        T |= split(p)", "the refinement no longer runs until the partition is stable"),
+        ("a rebuilt state finishes iff its block does", q + ".add_back", "state = next(iter(subset))\n...\nif state in self.finishing_states:\n    new_dfa.mark_finishing(new_state)\n...",
+         "finishing is not carried over from the block's representative"),
+        ("transitions of the representative lead to the rebuilt state of the target's block", q + ".add_back",
+         "for character, target in state.transitions.items():\n    target_subset = partition_containing(target)\n    if target_subset not in new_states:\n        add_back(target_subset)\n    new_state.transition(character, new_states[target_subset])\n    ...",
+         "the transitions of the rebuilt automaton no longer follow the blocks of the original targets"),
+        ("the start state is the block of the original start", q, "new_dfa.start_state = add_back(partition_containing(self.start_state))", "the minimised automaton starts elsewhere"),
+    ]
+    for what, fq, pat, msg in obl:
+        f = model.functions.get(fq)
+        rep.check(f is not None and model.has(fq, pat), "C07.m", fq, what, msg if f is not None else f"{fq} not found")
+    pc = model.functions.get(q + ".partition_containing")
+    rep.check(pc is not None and model.has(q + ".partition_containing", "return next((p for p in P if state in p))"), "C07.m", q + ".partition_containing", "block lookup = the block that contains the state",
+              "the block lookup of the refinement changed")
+
+
+_run_m07 = run
+
+
+def run(ctx, rep, tier):
+    _run_m07(ctx, rep, tier)
+    _minimisation_obligations(ctx, rep, tier)
